@@ -182,7 +182,9 @@ def Y1(ctx, rows=None):
         _join_edge(ctx, "rt::execution::Execution::new_thread", "spawn: child causality joins the parent's")
     if rows is None or "unpark" in rows:
         n += 1
-        _join_edge(ctx, "rt::thread::Thread::unpark", "unpark: target causality joins the unparker's")
+        # the edge belongs to the unpark operation, wherever its body lives (Thread::unpark or inlined into Set::unpark)
+        _join_edge(ctx, "rt::thread::Thread::unpark" if prog.fn("rt::thread::Thread::unpark") else "rt::thread::Set::unpark",
+                   "unpark: target causality joins the unparker's")
     return n
 
 
@@ -395,8 +397,13 @@ def _join_edge(ctx, fn_key, what):
             f0 = mentions_field(a0, T, "causality")
             f1 = mentions_field(a1, T, "causality")
             if f0 and f1 and canon(f0) != canon(f1):
-                if every_path_passes(body, [b]):
-                    ctx.ok("Y1", fn_key, what + " (on every path)", [site_str(prog, fn_key, b)])
+                # when the whole unpark operation is one function, the self-unpark path needs no edge: the join must precede
+                # every wake-up of *another* thread
+                others = [b2 for (b2, t2, c2) in prog.sites(inst) if prog.callee_key(c2) == T + "::set_unparked"
+                          and not mentions_call(arg_expr(body, t2, 0), "rt::thread::Set::active_mut")]
+                dom = body.dominators()
+                if every_path_passes(body, [b]) or (others and all(b in dom[o] for o in others)):
+                    ctx.ok("Y1", fn_key, what + " (on every path that wakes another thread)", [site_str(prog, fn_key, b)])
                 else:
                     ctx.bad("Y1", fn_key, "happens-before edge is conditional (%s): on some path of %s the clocks are not joined" % (what, fn_key),
                             site_str(prog, fn_key, b), detail="join-conditional")
@@ -408,7 +415,7 @@ def _join_edge(ctx, fn_key, what):
 # ---- Y2: no other edges ----------------------------------------------------------------------
 
 ALLOWED_CAUSALITY_JOIN = {
-    SYNC + "::sync_acq", "rt::thread::Thread::unpark", "rt::execution::Execution::new_thread",
+    SYNC + "::sync_acq", "rt::thread::Thread::unpark", "rt::thread::Set::unpark", "rt::execution::Execution::new_thread",
     "rt::thread::Set::seq_cst_fence",
 }
 ALLOWED_CAUSALITY_MUT = {
@@ -452,7 +459,13 @@ def Y2(ctx):
             src_ok = False
             if prog.fns[w["fn"]].j.get("impl_adt") == SYNC and cons:
                 src_ok = mentions_field(arg_expr(prog.fns[w["fn"]].body, cons[1], 1), SYNC, "happens_before") is not None
-            if fk in ALLOWED_CAUSALITY_JOIN or src_ok:
+            if fk == "rt::thread::Set::unpark" and cons:
+                # the unpark edge written in place: only the unparker's own clock may be the source
+                src_ok = mentions_field(arg_expr(prog.fns[w["fn"]].body, cons[1], 1), T, "causality") is not None
+                allowed_here = src_ok
+            else:
+                allowed_here = fk in ALLOWED_CAUSALITY_JOIN or src_ok
+            if allowed_here:
                 ctx.ok("Y2", fk, "inventoried join into causality", [site_str(prog, w["fn"], w["bb"])])
             else:
                 ctx.bad("Y2", fk, "an extra happens-before edge: %s joins a clock into a thread's causality outside the "
